@@ -50,12 +50,20 @@ func main() {
 	}
 	switch cmd {
 	case "replay":
+		if *out != "" {
+			if err := openTraceOut(*out); err != nil {
+				fmt.Fprintln(os.Stderr, err)
+				os.Exit(2)
+			}
+			defer closeTraceOut()
+		}
 		rep := newReport(*replays)
 		if err := replayStream(os.Stdin, rep, fnd, *workers); err != nil {
 			fmt.Fprintln(os.Stderr, err)
 			os.Exit(2)
 		}
 		writeJSON(*report, rep)
+		closeTraceOut()
 	case "replay-one":
 		os.Exit(replayOne(fs.Args(), fnd))
 	default:
